@@ -615,3 +615,396 @@ Proof.
   apply (xa_loop_job files sole named j a_init false false false Hwf Hpos).
   split; [unfold a_inv; cbn; auto|]. intros _. reflexivity.
 Qed.
+
+(* ================================================================== the JSON front end refines the specification *)
+Definition xj_word_key (w : xj_word) : bstr := match w with XjOpt e _ => camel (ae_flag e) | XjFile _ => B"file" end.
+Definition xj_word_val (w : xj_word) : bstr := match w with XjOpt _ v => v | XjFile f => f end.
+Lemma xj_word_member_eq : forall w, xj_word_member w = (xj_word_key w, JJStr (xj_word_val w)).
+Proof. intros w. destruct w; reflexivity. Qed.
+
+(* the string member k: x of a dictionary at path dp is accepted by the schema and handled with the call r (None: rejected) *)
+Definition xj_mem_ok (dp : list bstr) (k x : bstr) (r : option cfg_call) : Prop :=
+  schema_has_child dp k = true /\ schema_node (dp ++ [k]) = Some SString /\ is_nil (j_entries (dp ++ [k])) = false /\
+  forall s, exists kk, j_handle (dp ++ [k]) (JJStr x) s = match r with Some c => JOk (j_emit c s) | None => JErr s (EFront kk) end.
+
+Definition xj_word_ok (dp : list bstr) (obj : bstr) (w : xj_word) : Prop :=
+  xj_mem_ok dp (xj_word_key w) (xj_word_val w) (xj_word_denote obj w).
+
+Lemma xj_dict_words : forall dp obj ws k0 dp', dp = k0 :: dp' -> Forall (xj_word_ok dp obj) ws ->
+  sub_members_ok dp (map xj_word_member ws) = true /\
+  forall s, exists k, dict_go dp (map xj_word_member ws) s =
+            if snd (xj_words_denote obj ws) then JOk (j_emits (fst (xj_words_denote obj ws)) s)
+            else JErr (j_emits (fst (xj_words_denote obj ws)) s) (EFront k).
+Proof.
+  intros dp obj ws k0 dp' Hdp. induction ws as [|w ws IH]; intros Hwf.
+  - split; [reflexivity|]. intros s. exists 0. reflexivity.
+  - pose proof (Forall_inv Hwf) as [Hc [Hn [Hne Hh]]]. pose proof (Forall_inv_tail Hwf) as Hl.
+    destruct (IH Hl) as [IH1 IH2]. cbn [map]. rewrite xj_word_member_eq. split.
+    + cbn [sub_members_ok]. rewrite Hc. rewrite check_schema_str.
+      replace (match dp ++ [xj_word_key w] with [] => Some SDict | _ :: _ => schema_node (dp ++ [xj_word_key w]) end)
+        with (schema_node (dp ++ [xj_word_key w])) by (rewrite Hdp; reflexivity).
+      rewrite Hn. exact IH1.
+    + intros s. rewrite (dict_go_cons_ne dp _ _ _ s Hne). destruct (Hh s) as [kk Hkk]. rewrite Hkk.
+      cbn [xj_words_denote]. destruct (xj_word_denote obj w) as [c|].
+      * destruct (IH2 (j_emit c s)) as [k Hk]. exists k. rewrite Hk.
+        destruct (xj_words_denote obj ws) as [cs ok]. cbn. reflexivity.
+      * exists kk. reflexivity.
+Qed.
+
+(* an option whose key has the generated string handler *)
+Lemma xj_opt_ok_scalar : forall dp e v k0 dp', dp = k0 :: dp' ->
+  In e argv_table -> cfg_opt e = true -> json_sub_entry_ok dp e = true ->
+  xj_mem_ok dp (camel (ae_flag e)) v (opt_denote e v).
+Proof.
+  intros dp e v k0 dp' Hdp Hin Hm Hfact.
+  pose proof (argv_ok_shape e (entry_ok_of_wf e Hin Hm)) as Hshape.
+  destruct (scalar_facts_inv _ _ _ _ Hfact) as [Hc [Hok Hn]].
+  destruct (scalar_ok_on_inv _ _ Hok) as [Hne _].
+  split; [exact Hc|]. split; [exact Hn|]. split.
+  { destruct (j_entries (dp ++ [camel (ae_flag e)])); [congruence|reflexivity]. }
+  intros s. exists (jrej_kind e). rewrite (j_handle_str e _ v s Hm Hshape Hok). destruct (opt_denote e v); reflexivity.
+Qed.
+
+(* a key with a hand-written string handler that makes one call *)
+Lemma xj_key_ok_manual : forall dp k h x c,
+  schema_has_child dp k = true -> schema_node (dp ++ [k]) = Some SString -> is_nil (j_entries (dp ++ [k])) = false ->
+  find is_jmanual (j_entries (dp ++ [k])) = Some (mk_jentry (dp ++ [k]) JManual [] (TManual h)) -> is_ignore h = false ->
+  (forall s, j_manual_string h x s = JOk (j_emit c s)) ->
+  xj_mem_ok dp k x (Some c).
+Proof.
+  intros dp k h x c Hc Hn Hne Hm Hi Hs. split; [exact Hc|]. split; [exact Hn|]. split; [exact Hne|].
+  intros s. exists 0. rewrite (j_handle_manual _ x s _ Hm Hi). cbn [handler_name je_target]. apply Hs.
+Qed.
+
+(* ---- a key holding an array of dictionaries *)
+Definition xj_arr_node (K ha h : bstr) : Prop :=
+  schema_has_child [] K = true /\ schema_node [K] = Some SArray /\ schema_node [K; ARRK] = Some SDict /\
+  is_nil (j_entries [K]) = false /\ find is_jmanual (j_entries [K]) = None /\
+  find is_jarray (j_entries [K]) = Some (mk_jentry [K] JArray [] (TManual ha)) /\ noop_array ha = true /\
+  find is_jmanual (j_entries [K; ARRK]) = None /\
+  find is_jdict (j_entries [K; ARRK]) = Some (mk_jentry [K; ARRK] JDict [] (TManual h)).
+
+Section XJArr.
+  Variables (K ha h : bstr).
+  Hypothesis Hnode : xj_arr_node K ha h.
+  Variables (A : Type) (f : A -> list cfg_call * bool) (mem : A -> list (bstr * jjv)) (P : A -> Prop).
+  Hypothesis Hone : forall x, P x ->
+    sub_members_ok [K; ARRK] (mem x) = true /\
+    forall s, exists k, dict_walk [K; ARRK] h (mem x) s =
+              if snd (f x) then JOk (j_emits (fst (f x)) s) else JErr (j_emits (fst (f x)) s) (EFront k).
+
+  Lemma xj_arr_go : forall l, Forall P l -> forall s,
+    exists k, arr_go [K; ARRK] (map (fun x => JJObj (mem x)) l) s =
+              if snd (xj_seq f l) then JOk (j_emits (fst (xj_seq f l)) s) else JErr (j_emits (fst (xj_seq f l)) s) (EFront k).
+  Proof.
+    destruct Hnode as [_ [_ [_ [_ [_ [_ [_ [N8 N9]]]]]]]].
+    induction l as [|x l IH]; intros Hl s.
+    - exists 0. reflexivity.
+    - pose proof (Forall_inv Hl) as Hx. pose proof (Forall_inv_tail Hl) as Hr.
+      cbn [map xj_seq]. rewrite arr_go_obj. rewrite j_handle_obj_eq. rewrite N8, N9. cbn [handler_name je_target].
+      destruct (Hone x Hx) as [_ Hw]. destruct (Hw s) as [k Hk]. rewrite Hk.
+      destruct (f x) as [cs ok]. cbn [fst snd]. destruct ok.
+      + destruct (IH Hr (j_emits cs s)) as [k2 Hk2]. exists k2. rewrite Hk2.
+        destruct (xj_seq f l) as [cs2 ok2]. cbn [fst snd]. rewrite j_emits_app. reflexivity.
+      + exists k. reflexivity.
+  Qed.
+
+  Lemma xj_arr_schema : forall l, Forall P l -> all_items_ok [K] (map (fun x => JJObj (mem x)) l) = true.
+  Proof.
+    destruct Hnode as [_ [_ [N3 _]]].
+    induction l as [|x l IH]; intros Hl; [reflexivity|].
+    pose proof (Forall_inv Hl) as Hx. pose proof (Forall_inv_tail Hl) as Hr.
+    cbn [map all_items_ok]. change ([K] ++ [ARRK]) with (K :: [ARRK]). rewrite (check_schema_obj K [ARRK] _ N3).
+    rewrite (proj1 (Hone x Hx)). exact (IH Hr).
+  Qed.
+
+  Lemma xj_arr_member : forall l s, Forall P l ->
+    (if schema_has_child [] K then check_schema [K] (JJArr (map (fun x => JJObj (mem x)) l)) else false) = true /\
+    j_entries [K] <> [] /\
+    exists k, j_handle [K] (JJArr (map (fun x => JJObj (mem x)) l)) s =
+              if snd (xj_seq f l) then JOk (j_emits (fst (xj_seq f l)) s) else JErr (j_emits (fst (xj_seq f l)) s) (EFront k).
+  Proof.
+    intros l s Hl. pose proof Hnode as [N1 [N2 [N3 [N4 [N5 [N6 [N7 _]]]]]]].
+    split; [rewrite N1, (check_schema_arr K _ N2); exact (xj_arr_schema l Hl)|].
+    split; [intro H; rewrite H in N4; discriminate|].
+    rewrite j_handle_arr_eq. rewrite N5, N6. cbn [handler_name je_target].
+    destruct (noop_array_begin_end ha s N7) as [Hb _]. rewrite Hb. change ([K] ++ [ARRK]) with [K; ARRK].
+    destruct (xj_arr_go l Hl s) as [k Hk]. exists k. rewrite Hk.
+    destruct (xj_seq f l) as [cs ok]. cbn [fst snd]. destruct ok; [|reflexivity].
+    exact (proj2 (noop_array_begin_end ha (j_emits cs s) N7)).
+  Qed.
+End XJArr.
+
+(* ---- one dictionary block: begin handler, members, end handler *)
+Lemma xj_walk_block : forall dp h members pre (body : list cfg_call * bool) endc s,
+  j_begin_dict h members s = JOk (j_emits pre s) -> (forall s2, j_end_dict h s2 = JOk (j_emit endc s2)) ->
+  (exists k, dict_go dp members (j_emits pre s) =
+             if snd body then JOk (j_emits (fst body) (j_emits pre s)) else JErr (j_emits (fst body) (j_emits pre s)) (EFront k)) ->
+  exists k, dict_walk dp h members s =
+            if snd body then JOk (j_emits (pre ++ fst body ++ [endc]) s) else JErr (j_emits (pre ++ fst body) s) (EFront k).
+Proof.
+  intros dp h members pre [cs ok] endc s Hb He [k Hk]. cbn [fst snd] in *. exists k. unfold dict_walk. rewrite Hb, Hk.
+  destruct ok.
+  - rewrite He. rewrite !j_emits_app. reflexivity.
+  - rewrite j_emits_app. reflexivity.
+Qed.
+
+(* ---- table facts (computed) *)
+Definition KOV (over : bool) : bstr := if over then B"overlay" else B"underlay".
+Definition E_UO_PW := mk_aentry UO B"password" KParam [] (TConfig C_UO B"password").
+Definition E_CATT_PW := mk_aentry CATT B"password" KParam [] (TConfig C_COPY_ATT B"password").
+Definition KATT : bstr := B"addAttachment".
+Definition KCATT : bstr := B"copyAttachmentsFrom".
+
+Lemma xj_node_uo : forall over : bool,
+  xj_arr_node (KOV over) (if over then B"beginOverlayArray" else B"beginUnderlayArray") (if over then B"beginOverlay" else B"beginUnderlay").
+Proof. intros over. unfold xj_arr_node. destruct over; vm_compute; repeat split; reflexivity. Qed.
+Lemma xj_node_att : xj_arr_node KATT B"beginAddAttachmentArray" B"beginAddAttachment".
+Proof. unfold xj_arr_node. vm_compute. repeat split; reflexivity. Qed.
+Lemma xj_node_catt : xj_arr_node KCATT B"beginCopyAttachmentsFromArray" B"beginCopyAttachmentsFrom".
+Proof. unfold xj_arr_node. vm_compute. repeat split; reflexivity. Qed.
+
+Lemma xj_entries_uo : forall over : bool,
+  forallb (fun e => json_sub_entry_ok [KOV over; ARRK] e || aentry_same e E_UO_PW || aentry_same e E_UO_FILE)
+          (filter (sub_opt UO) argv_table) = true.
+Proof. intros over. destruct over; vm_compute; reflexivity. Qed.
+Lemma xj_entries_att : forallb (json_sub_entry_ok [KATT; ARRK]) (filter (sub_opt ATT) argv_table) = true.
+Proof. vm_compute. reflexivity. Qed.
+Lemma xj_entries_catt :
+  forallb (fun e => json_sub_entry_ok [KCATT; ARRK] e || aentry_same e E_CATT_PW) (filter (sub_opt CATT) argv_table) = true.
+Proof. vm_compute. reflexivity. Qed.
+
+(* the keys with hand-written handlers *)
+Definition xj_manual_key (dp : list bstr) (k h : bstr) : Prop :=
+  schema_has_child dp k = true /\ schema_node (dp ++ [k]) = Some SString /\ is_nil (j_entries (dp ++ [k])) = false /\
+  find is_jmanual (j_entries (dp ++ [k])) = Some (mk_jentry (dp ++ [k]) JManual [] (TManual h)).
+
+Lemma xj_manual_keys :
+  (forall over : bool, xj_manual_key [KOV over; ARRK] B"file" (if over then B"setupOverlayFile" else B"setupUnderlayFile") /\
+                       xj_manual_key [KOV over; ARRK] B"password" (if over then B"setupOverlayPassword" else B"setupUnderlayPassword")) /\
+  xj_manual_key [KATT; ARRK] B"file" B"setupAddAttachmentFile" /\
+  xj_manual_key [KCATT; ARRK] B"file" B"setupCopyAttachmentsFromFile" /\
+  xj_manual_key [KCATT; ARRK] B"password" B"setupCopyAttachmentsFromPassword".
+Proof.
+  split; [intros over; unfold xj_manual_key; destruct over; vm_compute; repeat split; reflexivity|].
+  unfold xj_manual_key. vm_compute. repeat split; reflexivity.
+Qed.
+
+(* ---- the words of each table *)
+Lemma xj_att_word_ok : forall w, xj_wf_word argv_table ATT w -> xj_word_ok [KATT; ARRK] B"c_att" w.
+Proof.
+  intros [e v|f] Hw; unfold xj_word_ok; cbn [xj_word_key xj_word_val xj_word_denote].
+  - destruct Hw as [Hin Hsub]. destruct (sub_opt_cfg_opt _ e Hsub) as [Hm _].
+    apply (xj_opt_ok_scalar [KATT; ARRK] e v KATT [ARRK] eq_refl Hin Hm).
+    pose proof xj_entries_att as H. rewrite forallb_forall in H. apply H. apply filter_In. auto.
+  - destruct xj_manual_keys as [_ [[M1 [M2 [M3 M4]]] _]].
+    exact (xj_key_ok_manual [KATT; ARRK] B"file" B"setupAddAttachmentFile" f _ M1 M2 M3 M4 eq_refl (fun s => eq_refl)).
+Qed.
+
+Lemma xj_catt_word_ok : forall w, xj_wf_word argv_table CATT w -> xj_word_ok [KCATT; ARRK] B"c_copy_att" w.
+Proof.
+  intros [e v|f] Hw; unfold xj_word_ok; cbn [xj_word_key xj_word_val xj_word_denote].
+  - destruct Hw as [Hin Hsub]. destruct (sub_opt_cfg_opt _ e Hsub) as [Hm _].
+    pose proof xj_entries_catt as H. rewrite forallb_forall in H.
+    assert (Hf : In e (filter (sub_opt CATT) argv_table)) by (apply filter_In; auto).
+    specialize (H e Hf). apply orb_true_iff in H. destruct H as [H|H].
+    + exact (xj_opt_ok_scalar [KCATT; ARRK] e v KCATT [ARRK] eq_refl Hin Hm H).
+    + apply aentry_same_eq in H. subst e.
+      destruct xj_manual_keys as [_ [_ [_ [M1 [M2 [M3 M4]]]]]].
+      exact (xj_key_ok_manual [KCATT; ARRK] B"password" B"setupCopyAttachmentsFromPassword" v _ M1 M2 M3 M4 eq_refl (fun s => eq_refl)).
+  - destruct xj_manual_keys as [_ [_ [[M1 [M2 [M3 M4]]] _]]].
+    exact (xj_key_ok_manual [KCATT; ARRK] B"file" B"setupCopyAttachmentsFromFile" f _ M1 M2 M3 M4 eq_refl (fun s => eq_refl)).
+Qed.
+
+Lemma xj_uo_opt_ok : forall (over : bool) e v,
+  In e argv_table -> sub_opt UO e = true -> bstr_eqb (ae_flag e) B"file" = false ->
+  xj_word_ok [KOV over; ARRK] B"c_uo" (XjOpt e v).
+Proof.
+  intros over e v Hin Hsub Hnf. unfold xj_word_ok; cbn [xj_word_key xj_word_val xj_word_denote].
+  destruct (sub_opt_cfg_opt _ e Hsub) as [Hm _].
+  pose proof (xj_entries_uo over) as H. rewrite forallb_forall in H.
+  assert (Hf : In e (filter (sub_opt UO) argv_table)) by (apply filter_In; auto).
+  specialize (H e Hf). apply orb_true_iff in H. destruct H as [H|H]; [apply orb_true_iff in H; destruct H as [H|H]|].
+  - exact (xj_opt_ok_scalar [KOV over; ARRK] e v (KOV over) [ARRK] eq_refl Hin Hm H).
+  - apply aentry_same_eq in H. subst e.
+    destruct xj_manual_keys as [MK _]. destruct (MK over) as [_ [M1 [M2 [M3 M4]]]].
+    refine (xj_key_ok_manual [KOV over; ARRK] B"password" _ v _ M1 M2 M3 M4 _ _); destruct over; first [reflexivity | intros s; reflexivity].
+  - apply aentry_same_eq in H. subst e. cbn in Hnf. discriminate.
+Qed.
+
+(* ---- one block of each table *)
+Lemma xj_one_att : forall ws, Forall (xj_wf_word argv_table ATT) ws ->
+  sub_members_ok [KATT; ARRK] (map xj_word_member ws) = true /\
+  forall s, exists k, dict_walk [KATT; ARRK] B"beginAddAttachment" (map xj_word_member ws) s =
+            if snd (xj_att_denote ws) then JOk (j_emits (fst (xj_att_denote ws)) s)
+            else JErr (j_emits (fst (xj_att_denote ws)) s) (EFront k).
+Proof.
+  intros ws Hwf.
+  assert (Hok : Forall (xj_word_ok [KATT; ARRK] B"c_att") ws) by (eapply Forall_impl; [|exact Hwf]; exact xj_att_word_ok).
+  destruct (xj_dict_words [KATT; ARRK] B"c_att" ws KATT [ARRK] eq_refl Hok) as [D1 D2].
+  split; [exact D1|]. intros s.
+  destruct (xj_walk_block [KATT; ARRK] B"beginAddAttachment" (map xj_word_member ws) [CCall C_MAIN B"addAttachment" []]
+              (xj_words_denote B"c_att" ws) (CCall C_ATT B"endAddAttachment" []) s eq_refl (fun s2 => eq_refl)
+              (D2 _)) as [k Hk].
+  exists k. rewrite Hk. unfold xj_att_denote, xj_block. cbn [fst snd].
+  destruct (xj_words_denote B"c_att" ws) as [cs ok]. cbn [fst snd]. destruct ok; [reflexivity|]. cbn [app]. rewrite app_nil_r. reflexivity.
+Qed.
+
+Lemma xj_one_catt : forall ws, Forall (xj_wf_word argv_table CATT) ws ->
+  sub_members_ok [KCATT; ARRK] (map xj_word_member ws) = true /\
+  forall s, exists k, dict_walk [KCATT; ARRK] B"beginCopyAttachmentsFrom" (map xj_word_member ws) s =
+            if snd (xj_copyatt_denote ws) then JOk (j_emits (fst (xj_copyatt_denote ws)) s)
+            else JErr (j_emits (fst (xj_copyatt_denote ws)) s) (EFront k).
+Proof.
+  intros ws Hwf.
+  assert (Hok : Forall (xj_word_ok [KCATT; ARRK] B"c_copy_att") ws) by (eapply Forall_impl; [|exact Hwf]; exact xj_catt_word_ok).
+  destruct (xj_dict_words [KCATT; ARRK] B"c_copy_att" ws KCATT [ARRK] eq_refl Hok) as [D1 D2].
+  split; [exact D1|]. intros s.
+  destruct (xj_walk_block [KCATT; ARRK] B"beginCopyAttachmentsFrom" (map xj_word_member ws) [CCall C_MAIN B"copyAttachmentsFrom" []]
+              (xj_words_denote B"c_copy_att" ws) (CCall C_COPY_ATT B"endCopyAttachmentsFrom" []) s eq_refl (fun s2 => eq_refl)
+              (D2 _)) as [k Hk].
+  exists k. rewrite Hk. unfold xj_copyatt_denote, xj_block. cbn [fst snd].
+  destruct (xj_words_denote B"c_copy_att" ws) as [cs ok]. cbn [fst snd]. destruct ok; [reflexivity|]. cbn [app]. rewrite app_nil_r. reflexivity.
+Qed.
+
+Definition xj_uo_members (u : xj_uospec) : list (bstr * jjv) := map xj_word_member (xj_uo_words u).
+
+Lemma xj_one_uo : forall (over : bool) named u, xj_wf_uo argv_table named u ->
+  sub_members_ok [KOV over; ARRK] (xj_uo_members u) = true /\
+  forall s, exists k, dict_walk [KOV over; ARRK] (if over then B"beginOverlay" else B"beginUnderlay") (xj_uo_members u) s =
+            if snd (xj_uo_denote (KOV over) u) then JOk (j_emits (fst (xj_uo_denote (KOV over) u)) s)
+            else JErr (j_emits (fst (xj_uo_denote (KOV over) u)) s) (EFront k).
+Proof.
+  intros over named u [_ Hopts].
+  set (opts := map (fun p : aentry * bstr => XjOpt (fst p) (snd p)) (xj_uo_opts u)).
+  assert (Hok : Forall (xj_word_ok [KOV over; ARRK] B"c_uo") opts).
+  { unfold opts. induction (xj_uo_opts u) as [|p l IH]; [constructor|].
+    pose proof (Forall_inv Hopts) as [H1 [H2 H3]]. constructor; [exact (xj_uo_opt_ok over (fst p) (snd p) H1 H2 H3)|].
+    apply IH. exact (Forall_inv_tail Hopts). }
+  destruct (xj_dict_words [KOV over; ARRK] B"c_uo" opts (KOV over) [ARRK] eq_refl Hok) as [D1 D2].
+  destruct xj_manual_keys as [MK _]. destruct (MK over) as [[F1 [F2 [F3 F4]]] _].
+  unfold xj_uo_members, xj_uo_words. fold opts. cbn [map xj_word_member].
+  split.
+  { cbn [sub_members_ok]. rewrite F1. rewrite check_schema_str_node; [exact D1|discriminate|exact F2]. }
+  intros s.
+  set (f := xj_uo_file u).
+  set (pre := [CCall C_MAIN (KOV over) []; CCall C_UO B"file" [f]]).
+  assert (Hgo : exists k, dict_go [KOV over; ARRK] ((B"file", JJStr f) :: map xj_word_member opts) (j_emits pre s) =
+            if snd (xj_words_denote B"c_uo" opts) then JOk (j_emits (fst (xj_words_denote B"c_uo" opts)) (j_emits pre s))
+            else JErr (j_emits (fst (xj_words_denote B"c_uo" opts)) (j_emits pre s)) (EFront k)).
+  { destruct (D2 (j_emits pre s)) as [k Hk]. exists k.
+    rewrite (dict_go_cons_ne [KOV over; ARRK] B"file" (JJStr f) _ (j_emits pre s) F3).
+    rewrite (j_handle_ignore _ f (j_emits pre s) _ F4) by (destruct over; reflexivity). exact Hk. }
+  assert (Hbegin : j_begin_dict (if over then B"beginOverlay" else B"beginUnderlay") ((B"file", JJStr f) :: map xj_word_member opts) s =
+                   JOk (j_emits pre s)) by (destruct over; reflexivity).
+  assert (Hend : forall s2, j_end_dict (if over then B"beginOverlay" else B"beginUnderlay") s2 =
+                            JOk (j_emit (CCall C_UO B"endUnderlayOverlay" []) s2)) by (intros s2; destruct over; reflexivity).
+  destruct (xj_walk_block [KOV over; ARRK] _ _ pre (xj_words_denote B"c_uo" opts) _ s Hbegin Hend Hgo) as [k Hk].
+  exists k. etransitivity; [exact Hk|]. unfold xj_uo_denote, xj_block, xj_uo_words. fold opts. fold f. cbn [xj_words_denote xj_word_denote].
+  destruct (xj_words_denote B"c_uo" opts) as [cs ok]. cbn [fst snd]. unfold pre.
+  destruct ok; [reflexivity|]. cbn [app]. rewrite app_nil_r. reflexivity.
+Qed.
+
+(* ---- "setPageLabels": [w, ...] *)
+Definition KSPL : bstr := B"setPageLabels".
+Lemma xj_spl_facts :
+  schema_has_child [] KSPL = true /\ schema_node [KSPL] = Some SArray /\ schema_node [KSPL; ARRK] = Some SString /\
+  is_nil (j_entries [KSPL]) = false /\ find is_jmanual (j_entries [KSPL]) = None /\
+  find is_jarray (j_entries [KSPL]) = Some (mk_jentry [KSPL] JArray [] (TManual B"beginSetPageLabelsArray")) /\
+  find is_jmanual (j_entries [KSPL; ARRK]) = Some (mk_jentry [KSPL; ARRK] JManual [] (TManual B"setupSetPageLabels")).
+Proof. vm_compute. repeat split; reflexivity. Qed.
+
+Lemma xj_spl_go : forall l s,
+  arr_go [KSPL; ARRK] (map JJStr l) s = JOk (mk_jstate (j_acc s ++ l) (j_pages_open s) (j_calls s)).
+Proof.
+  destruct xj_spl_facts as [_ [_ [_ [_ [_ [_ M]]]]]].
+  induction l as [|w l IH]; intros s.
+  - cbn [map]. rewrite arr_go_nil, app_nil_r. destruct s; reflexivity.
+  - cbn [map]. rewrite arr_go_str. rewrite (j_handle_manual _ w s _ M eq_refl). cbn [handler_name je_target].
+    change (j_manual_string B"setupSetPageLabels" w s) with (JOk (mk_jstate (j_acc s ++ [w]) (j_pages_open s) (j_calls s))). cbv beta iota.
+    rewrite IH. cbn [j_acc j_pages_open j_calls]. rewrite <- app_assoc. reflexivity.
+Qed.
+
+Definition xj_jinv (s : jstate) : Prop := j_pages_open s = false /\ j_acc s = [].
+Lemma xj_jinv_emits : forall cs s, xj_jinv s -> xj_jinv (j_emits cs s).
+Proof. intros cs s [H1 H2]. destruct (j_emits_open cs s) as [E1 E2]. split; congruence. Qed.
+
+Lemma xj_spl_member : forall l s, xj_jinv s ->
+  (if schema_has_child [] KSPL then check_schema [KSPL] (JJArr (map JJStr l)) else false) = true /\
+  j_entries [KSPL] <> [] /\
+  j_handle [KSPL] (JJArr (map JJStr l)) s = JOk (j_emits [CCall C_MAIN B"setPageLabels" l] s).
+Proof.
+  intros l s [_ Hacc]. destruct xj_spl_facts as [S1 [S2 [S3 [N [M0 [A0 _]]]]]].
+  split; [rewrite S1, (check_schema_arr KSPL _ S2); exact (all_items_str KSPL l S3)|].
+  split; [intro H; rewrite H in N; discriminate|].
+  rewrite j_handle_arr_eq. rewrite M0, A0. cbn [handler_name je_target].
+  change (j_begin_array B"beginSetPageLabelsArray" s) with (JOk s). change ([KSPL] ++ [ARRK]) with [KSPL; ARRK]. cbv beta iota.
+  rewrite xj_spl_go. rewrite Hacc. cbn [app].
+  destruct s as [a o c]. cbn in Hacc. subst a. reflexivity.
+Qed.
+
+(* ---- one member of the job object *)
+Lemma xj_member : forall files named it s, xj_wf_item argv_table files named it -> xj_jinv s ->
+  (if schema_has_child [] (fst (xj_json_of_item it)) then check_schema [fst (xj_json_of_item it)] (snd (xj_json_of_item it)) else false) = true /\
+  j_entries [fst (xj_json_of_item it)] <> [] /\
+  exists kind, j_handle [fst (xj_json_of_item it)] (snd (xj_json_of_item it)) s =
+  if snd (xj_denote_item it) then JOk (j_emits (fst (xj_denote_item it)) s)
+  else JErr (j_emits (fst (xj_denote_item it)) s) (EFront kind).
+Proof.
+  intros files named it s Hwf Hinv.
+  destruct it as [b|l|l|l|l|l|l]; cbn [xj_wf_item xj_json_of_item xj_denote_item] in *.
+  - exact (j_member b s Hwf).
+  - destruct (pg_j_member l s (proj1 Hinv)) as [Hne Hh].
+    split; [exact (pg_schema_member l)|]. split; [exact Hne|]. exists 0. cbn [fst snd]. exact Hh.
+  - exact (xj_arr_member (KOV true) _ _ (xj_node_uo true) xj_uospec (xj_uo_denote (KOV true)) xj_uo_members (xj_wf_uo argv_table named)
+             (xj_one_uo true named) l s Hwf).
+  - exact (xj_arr_member (KOV false) _ _ (xj_node_uo false) xj_uospec (xj_uo_denote (KOV false)) xj_uo_members (xj_wf_uo argv_table named)
+             (xj_one_uo false named) l s Hwf).
+  - exact (xj_arr_member KATT _ _ xj_node_att (list xj_word) xj_att_denote (map xj_word_member) (Forall (xj_wf_word argv_table ATT))
+             xj_one_att l s Hwf).
+  - exact (xj_arr_member KCATT _ _ xj_node_catt (list xj_word) xj_copyatt_denote (map xj_word_member) (Forall (xj_wf_word argv_table CATT))
+             xj_one_catt l s Hwf).
+  - destruct (xj_spl_member l s Hinv) as [H1 [H2 H3]]. split; [exact H1|]. split; [exact H2|]. exists 0. exact H3.
+Qed.
+
+Lemma xj_members_ok_job : forall files named j, Forall (xj_wf_item argv_table files named) j ->
+  members_ok (map xj_json_of_item j) = true.
+Proof.
+  intros files named. induction j as [|it j IH]; intros H; [reflexivity|]. inversion H as [|? ? Hit Hj]; subst.
+  cbn [map members_ok]. destruct (xj_json_of_item it) as [k v] eqn:Hk.
+  assert (Hi : xj_jinv (mk_jstate [] false [])) by (split; reflexivity).
+  destruct (xj_member files named it (mk_jstate [] false []) Hit Hi) as [H1 _]. rewrite Hk in H1. cbn [fst snd] in H1.
+  rewrite H1. exact (IH Hj).
+Qed.
+
+Lemma xj_top_job : forall files named j s, Forall (xj_wf_item argv_table files named) j -> xj_jinv s ->
+  exists k, j_top_members (map xj_json_of_item j) s =
+  if snd (xj_denote_items j) then JOk (j_emits (fst (xj_denote_items j)) s)
+  else JErr (j_emits (fst (xj_denote_items j)) s) (EFront k).
+Proof.
+  intros files named. induction j as [|it j IH]; intros s H Hinv.
+  - exists 0. reflexivity.
+  - pose proof (Forall_inv H) as Hit. pose proof (Forall_inv_tail H) as Hj.
+    unfold xj_denote_items. cbn [map j_top_members xj_seq]. fold (xj_denote_items j).
+    destruct (xj_json_of_item it) as [k v] eqn:Hk.
+    destruct (xj_member files named it s Hit Hinv) as [_ [Hne [kind Hh]]]. rewrite Hk in Hne, Hh. cbn [fst snd] in Hne, Hh.
+    destruct (j_entries [k]) as [|je0 es0] eqn:Hes; [congruence|].
+    rewrite Hh. destruct (xj_denote_item it) as [cs ok]. cbn [fst snd]. destruct ok.
+    + destruct (IH (j_emits cs s) Hj (xj_jinv_emits cs s Hinv)) as [k2 IH2]. exists k2. rewrite IH2.
+      destruct (xj_denote_items j) as [cs2 ok2]. cbn [fst snd]. rewrite j_emits_app. reflexivity.
+    + exists kind. reflexivity.
+Qed.
+
+(* json_refines_spec, over every option table (the jobs of argv_refines_spec; members in any order): the job-JSON front end passes
+   the schema check and makes exactly the Config calls of the job's denotation *)
+Lemma json_refines_spec_lemma : forall files named j, Forall (xj_wf_item argv_table files named) j ->
+  res_is (front_json false (xj_render_json j)) [] (fst (xj_denote_items j)) (snd (xj_denote_items j)).
+Proof.
+  intros files named j Hwf. unfold front_json, xj_render_json. rewrite check_schema_top.
+  rewrite (xj_members_ok_job files named j Hwf). cbn [negb].
+  assert (Hi : xj_jinv (mk_jstate [] false [])) by (split; reflexivity).
+  destruct (xj_top_job files named j (mk_jstate [] false []) Hwf Hi) as [k Hk]. rewrite Hk.
+  unfold res_is. destruct (xj_denote_items j) as [cs ok]. cbn [fst snd]. destruct ok.
+  - rewrite rev'_rev. cbn [rev]. rewrite j_emits_calls. cbn [j_calls]. rewrite app_nil_r, rev_involutive. reflexivity.
+  - exists k. rewrite rev'_rev, j_emits_calls. cbn [j_calls]. rewrite app_nil_r, rev_involutive. reflexivity.
+Qed.
